@@ -2,63 +2,36 @@
    Print Assumptions, and non-vacuity examples.  Parsed by /verif/check.
 
    The clauses of C06 about operand/argument types rest on TypeKernel.Props (TK_assignable_identity,
-   TK_mismatch_rejected), the clause about matches on C07.Props (C07_match_exhaustive_exact); both are
-   re-checked by checks/c06.py.  Here: the integer-literal gate and the gate of compile_sources.
+   TK_mismatch_rejected), the clause about matches on C07.Props (C07_match_exhaustive_exact), the clause
+   about unbound names on C15.Props (C15_lookup_unbound); all are re-checked by checks/c06.py.
+   Here: the integer-literal gate of the lexer and the gate of compile_sources.
 
-   FULL STATEMENT of the literal gate (what the property needs):
-
-     forall p ds, digits ds -> (lit_ok p ds = true <-> in_range p ds)
-     forall p ds, digits ds -> lit_ok p ds = true ->
-        lit_value p ds = denoted p ds /\ I32_MIN <= lit_value p ds <= I32_MAX
-
-   It is FALSE of the faithful model of the pinned lexer (C06_lit_gate_refuted: the literal 2147483648
-   after any token other than `-` passes the gate and is read as 0).  It is proved (a) for the pinned
-   model outside the precise class Known_C06_lit, which is shown to be exactly the set of inputs on
-   which the pinned gate is wrong, and (b) at full strength for the model of the repaired lexer
-   (process_raw_patched).  checks/c06.py establishes on every run which of the two models the code in
-   /repo agrees with. *)
+   The literal gate is stated at full strength about the model of the code that is in /repo
+   (process_raw; lexer.rs after the repair 9eaf9b5).  The gate as it was before the repair
+   (process_raw_old) is kept as a historical record: it is refuted, shown exact outside the precise
+   class Known_C06_lit, and the repair is shown to change it on that class only. *)
 From Coq Require Import List ZArith Bool Lia.
 Import ListNotations.
 From SV Require Import C06.Model C06.Proofs.
 Open Scope Z_scope.
 
-(* ---- the pinned lexer ---- *)
+(* ---- the integer-literal gate: full statement ---- *)
 
-Theorem C06_lit_gate_refuted : exists p ds,
-  digits ds /\ lit_ok p ds = true /\ ~ in_range p ds /\ lit_value p ds = 0 /\ denoted p ds = 2147483648.
-Proof. exact lit_gate_refuted. Qed.
+(* a literal passes the lexer without a diagnostic exactly when it is a 32-bit value:
+   at most 2147483647, or 2147483648 directly after a `-` token *)
+Theorem C06_lit_gate : forall p ds, digits ds -> (lit_ok p ds = true <-> in_range p ds).
+Proof. exact lit_gate. Qed.
 
-Theorem C06_lit_gate_outside_known : forall p ds, digits ds -> Known_C06_lit p ds = false ->
-  (lit_ok p ds = true <-> in_range p ds).
-Proof. exact lit_gate_outside_known. Qed.
-
-Theorem C06_lit_value_outside_known : forall p ds, digits ds -> Known_C06_lit p ds = false ->
-  lit_ok p ds = true ->
+(* ... and then the value the parser stores is the value the text denotes, within the 32-bit range
+   (in particular the `unwrap_or(0)` fallback of source_parser.rs is never taken silently) *)
+Theorem C06_lit_value : forall p ds, digits ds -> lit_ok p ds = true ->
   lit_value p ds = denoted p ds /\ I32_MIN <= lit_value p ds <= I32_MAX.
-Proof. exact lit_value_outside_known. Qed.
+Proof. exact lit_value_exact. Qed.
 
-(* the class is precise: on every member the pinned gate accepts an out-of-range literal and reads 0 *)
-Theorem C06_lit_known_class_exact : forall p ds, digits ds -> Known_C06_lit p ds = true ->
-  lit_ok p ds = true /\ ~ in_range p ds /\ lit_value p ds = 0 /\ denoted p ds = 2147483648.
-Proof. exact lit_gate_wrong_in_known. Qed.
-
-(* the gate never rejects a literal that is in range *)
-Theorem C06_lit_gate_no_false_alarm : forall p ds, digits ds -> in_range p ds -> lit_ok p ds = true.
-Proof. exact lit_gate_no_false_alarm. Qed.
-
-(* ---- the repaired lexer: the full statement ---- *)
-
-Theorem C06_lit_gate_patched : forall p ds, digits ds ->
-  (lit_ok_patched p ds = true <-> in_range p ds).
-Proof. exact lit_gate_patched. Qed.
-
-Theorem C06_lit_value_patched : forall p ds, digits ds -> lit_ok_patched p ds = true ->
-  lit_value_patched p ds = denoted p ds /\ I32_MIN <= lit_value_patched p ds <= I32_MAX.
-Proof. exact lit_value_patched_exact. Qed.
-
-Theorem C06_patch_changes_only_known : forall p ds, digits ds ->
-  (process_raw_patched p ds = process_raw p ds <-> Known_C06_lit p ds = false).
-Proof. exact patched_differs_only_in_known. Qed.
+(* the clause of the property, contrapositive form: out of range -> "Not a 32-bit integer." *)
+Theorem C06_lit_out_of_range_rejected : forall p ds, digits ds -> ~ in_range p ds ->
+  o_error (process_raw p ds) = true.
+Proof. exact lit_out_of_range_rejected. Qed.
 
 (* ---- the step-by-step checked parsers of the Rust standard library have the expected closed forms ---- *)
 
@@ -70,6 +43,25 @@ Theorem C06_parse_i32_exact : forall ds, digits ds ->
   parse_i32 false ds = (if dec ds <=? I32_MAX then Some (dec ds) else None) /\
   parse_i32 true ds = (if I32_MIN <=? - dec ds then Some (- dec ds) else None).
 Proof. intros ds H. exact (conj (parse_i32_pos_spec ds H) (parse_i32_neg_spec ds H)). Qed.
+
+(* ---- historical: the gate before the repair (finding C06-int-literal-gate, fixed) ---- *)
+
+Theorem C06_old_lit_gate_refuted : exists p ds,
+  digits ds /\ lit_ok_old p ds = true /\ ~ in_range p ds /\ lit_value_old p ds = 0 /\ denoted p ds = 2147483648.
+Proof. exact old_lit_gate_refuted. Qed.
+
+Theorem C06_old_lit_known_class_exact : forall p ds, digits ds -> Known_C06_lit p ds = true ->
+  lit_ok_old p ds = true /\ ~ in_range p ds /\ lit_value_old p ds = 0 /\ denoted p ds = 2147483648.
+Proof. exact old_lit_gate_wrong_in_known. Qed.
+
+Theorem C06_old_lit_gate_outside_known : forall p ds, digits ds -> Known_C06_lit p ds = false ->
+  (lit_ok_old p ds = true <-> in_range p ds).
+Proof. exact old_lit_gate_outside_known. Qed.
+
+(* the repair changed the function exactly on the known class *)
+Theorem C06_patch_changes_only_known : forall p ds, digits ds ->
+  (process_raw p ds = process_raw_old p ds <-> Known_C06_lit p ds = false).
+Proof. exact repair_differs_only_in_known. Qed.
 
 (* ---- compile_sources: a non-empty error set means no code ---- *)
 
@@ -92,7 +84,7 @@ Proof. exact (@errors_reported_back). Qed.
 
 (* ---- non-vacuity ---- *)
 
-Definition D (n : Z) : list Z :=        (* decimal digits of a small literal, for the examples *)
+Definition D (n : Z) : list Z :=        (* decimal digits of a few literals, for the examples *)
   match n with
   | 2147483647 => [2;1;4;7;4;8;3;6;4;7]
   | 2147483648 => [2;1;4;7;4;8;3;6;4;8]
@@ -107,13 +99,14 @@ Example C06_lit_nonvacuous :
   (* -2147483648: merged, read as the minimum *)
   lit_ok PMinus (D 2147483648) = true /\ lit_value PMinus (D 2147483648) = -2147483648 /\
   o_merged (process_raw PMinus (D 2147483648)) = true /\
-  (* 2147483648 as the first token of a file, 2147483649 and 99999999999 anywhere: rejected *)
-  lit_ok PNone (D 2147483648) = false /\ lit_ok PMinus (D 2147483649) = false /\
-  lit_ok POther (D 99999999999) = false /\
+  (* 2147483648 not after `-` (first token of the file, or after any other token): rejected *)
+  lit_ok PNone (D 2147483648) = false /\ lit_ok POther (D 2147483648) = false /\
+  (* 2147483649 and 99999999999 anywhere: rejected *)
+  lit_ok PMinus (D 2147483649) = false /\ lit_ok POther (D 99999999999) = false /\
   (* more than 19 digits: the i64 parse already fails *)
   parse_i64 (repeat 9 20) = None /\ lit_ok POther (repeat 9 20) = false /\
-  (* the repaired gate rejects the witness of the pinned one *)
-  lit_ok_patched POther (D 2147483648) = false /\ lit_ok_patched PMinus (D 2147483648) = true.
+  (* the old gate let the witness through *)
+  lit_ok_old POther (D 2147483648) = true /\ lit_value_old POther (D 2147483648) = 0.
 Proof. vm_compute. repeat split; reflexivity. Qed.
 
 Example C06_compile_gate_nonvacuous :
@@ -122,16 +115,15 @@ Example C06_compile_gate_nonvacuous :
   compile_sources (fun _ : nat => false) (fun n => @nil nat) (fun n => n) 0%nat = CErr [].
 Proof. vm_compute. repeat split; reflexivity. Qed.
 
-Print Assumptions C06_lit_gate_refuted.
-Print Assumptions C06_lit_gate_outside_known.
-Print Assumptions C06_lit_value_outside_known.
-Print Assumptions C06_lit_known_class_exact.
-Print Assumptions C06_lit_gate_no_false_alarm.
-Print Assumptions C06_lit_gate_patched.
-Print Assumptions C06_lit_value_patched.
-Print Assumptions C06_patch_changes_only_known.
+Print Assumptions C06_lit_gate.
+Print Assumptions C06_lit_value.
+Print Assumptions C06_lit_out_of_range_rejected.
 Print Assumptions C06_parse_i64_exact.
 Print Assumptions C06_parse_i32_exact.
+Print Assumptions C06_old_lit_gate_refuted.
+Print Assumptions C06_old_lit_known_class_exact.
+Print Assumptions C06_old_lit_gate_outside_known.
+Print Assumptions C06_patch_changes_only_known.
 Print Assumptions C06_errors_no_code.
 Print Assumptions C06_code_only_without_errors.
 Print Assumptions C06_errors_reported_back.
